@@ -19,6 +19,7 @@ QLemma == {<<2, TRUE>>, <<3, TRUE>>, <<4, TRUE>>, <<3, FALSE>>}
 TLemma == {<<2, TRUE>>, <<3, TRUE>>, <<4, TRUE>>, <<5, TRUE>>, <<3, FALSE>>}
 WalkMachines == {"findwalks", "walker"}
 LemmaMachines == {"lemma"}
+FwOnly == {"findwalks"}
 
 SymOfEdges(n, E) == EMat(n, LAMBDA i, j : IF <<i, j>> \in E \/ <<j, i>> \in E THEN 1 ELSE 0)
 K2 == SymOfEdges(2, {<<1, 2>>})
